@@ -10,6 +10,12 @@ OPS = ['insert', 'get', 'contains_key', 'get_mut_set', 'remove', 'entry', 'entry
        'insert_repository_url', 'get_repository_url', 'contains_repository_url', 'remove_repository_url']
 
 
+# user-written typed qualifiers with these declared keys (the oracle defines one Rust type per key): upper-case, lower-case, mixed, invalid
+MQ_KEYS = {'K': b'K', 'k': b'k', 'Ab': b'Ab', 'Bad': b'a b'}
+MQ_OPS = ['typed%s_%s' % (t, o) for t in MQ_KEYS for o in ('insert', 'get', 'contains', 'remove')]
+OPS += MQ_OPS
+
+
 def mk_quals(items):
     return Adt('Qualifiers', None, [VecVal([Tup(Adt('QualifierKey', None, [StringBuf(k)]), StringBuf(v)) for k, v in items])])
 
@@ -171,6 +177,19 @@ def run_op(L, q, op, key, val):
         cap = I.call('Qualifiers::capacity', [qr])
         ln = I.call('Qualifiers::len', [qr])
         return cap >= ln
+    if op in MQ_OPS:
+        tag, o = op[5:].split('_')
+        I.mq_key = MQ_KEYS[tag]
+        if o == 'insert':
+            I.call('Qualifiers::insert_typed::<ModelQual>', [qr, Adt('ModelQual', None, [V])])
+            return None
+        if o == 'get':
+            r = I.call("Qualifiers::get_typed::<'_, ModelQual>", [qr])
+            return None if r.variant == 'None' else list(sbytes(r.fields[0].fields[0]))
+        if o == 'contains':
+            return I.call('Qualifiers::contains_typed::<ModelQual>', [qr])
+        I.call('Qualifiers::remove_typed::<ModelQual>', [qr])
+        return None
     if op == 'insert_repository_url':
         I.call("Qualifiers::insert_typed::<RepositoryUrl<'_>>", [qr, Adt('RepositoryUrl', None, [V])])
         return None
@@ -188,7 +207,14 @@ def run_op(L, q, op, key, val):
 def ref_op(L, items, op, key, val):
     """the same operation on the reference map (list of (key, value) sorted by key); returns (observable, new items)"""
     items = [(list(k), list(v)) for k, v in items]
-    if op in ('insert_repository_url', 'get_repository_url', 'contains_repository_url', 'remove_repository_url'):
+    if op in MQ_OPS:
+        tag, o = op[5:].split('_')
+        key = list(MQ_KEYS[tag])
+        if o == 'insert' and not key_valid(L, key):
+            return 'PANIC', items          # the documented panic: a typed qualifier whose declared key is invalid
+        op = {'insert': 'insert', 'get': 'get', 'contains': 'contains_key', 'remove': 'remove'}[o]
+        typed = True
+    elif op in ('insert_repository_url', 'get_repository_url', 'contains_repository_url', 'remove_repository_url'):
         key = list(b'repository_url')
         op = {'insert_repository_url': 'insert', 'get_repository_url': 'get', 'contains_repository_url': 'contains_key',
               'remove_repository_url': 'remove'}[op]
